@@ -42,3 +42,31 @@ def load_petl():
                            % (here, root))
     _PETL = petl
     return petl
+
+
+class Fluent(object):
+    """petl seen through its method-call style: `e.func(table, ...)` becomes
+    `petl.wrap(table).func(...)` for every function that is also bound as a
+    method of petl.Table (all other names pass through).  The two styles are
+    documented as equivalent; a method bound to the wrong function, or a
+    method that loses an argument, only shows this way."""
+
+    def __init__(self, petl):
+        self._petl = petl
+        from petl.util.base import Table
+        self._Table = Table
+
+    def __getattr__(self, name):
+        petl = self._petl
+        f = getattr(petl, name)
+        Table = self._Table
+        import inspect
+        if not inspect.isfunction(f) or not hasattr(Table, name) \
+                or name in ('wrap',):
+            return f
+
+        def call(table, *args, **kwargs):
+            t = table if isinstance(table, Table) else petl.wrap(table)
+            return getattr(t, name)(*args, **kwargs)
+        call.__name__ = name
+        return call
